@@ -68,6 +68,9 @@ def generate(ctx):
         n_len = rng.choice([0, 1, 2, 3, 7, 30, 100, 400, rng.randint(0, max_len)])
         if rng.random() < ctx.pick(0.02, 0.01):   # ascent-position sums beyond 2^31 / 2^32 need very long strands
             n_len = rng.choice([70000, 100000, 150000])
+        elif rng.random() < 0.03:                  # lengths just around powers of two / ten (block and window boundaries)
+            base = rng.choice([256, 1024, 4096, 10000, 32768, 65536, 100000, 131072, 200000])
+            n_len = base + rng.choice([-1, 0, 1, 1, 2])
         if kind == "random":
             s = gens.random_dna(rng, n_len)
         elif kind == "ascending":
@@ -89,7 +92,7 @@ def generate(ctx):
             if acc is None:
                 continue
         start = rng.choice(G.live_vertices(acc))
-        w = G.random_walk(acc, start, rng.randint(1, 14), rng)
+        w = G.random_walk(acc, start, rng.choice([0, 0] + list(range(1, 15))), rng)     # the empty strand (empty message) included
         yield "decode_rejects", dict(gens.graph_case(acc, k), start=int(start), walk=w, n=rng.choice([1, 2, 3, 5, 9, 33]),
                                      fast=rng.random() < 0.3)
     i = 0
@@ -156,7 +159,9 @@ def check_decode_rejects(ctx, case):
     # the width a real caller passes: exactly what the walk carries (fast mode) / what its value needs (normal mode)
     fast = case["fast"] and 3 not in set(G.out_degrees(acc).tolist())
     digits = oracles.walk_digits(w, acc, start)
-    exact = len(oracles.fast_bits(digits)) if fast else max(oracles.digits_value(digits).bit_length(), 1)
+    exact = len(oracles.fast_bits(digits)) if fast else (max(oracles.digits_value(digits).bit_length(), 1) if w else 0)
+    if not w:
+        ctx.cls("decode-rejects|empty strand")
     widths = [exact, exact, 4 * len(w) + 8]
     ok = monitored(dsw.decode, 10 ** 7, w, 4 * len(w) + 2, acc, start, vt_check=base, is_faster=False)
     if ok.kind != "ok":
@@ -200,7 +205,7 @@ def floors(agg, tier):
     if m.get("contract-evaluations:set_vt.ensure.vt_is_formula", 0) < 100000:
         out.append("set_vt contract evaluated %d times" % m.get("contract-evaluations:set_vt.ensure.vt_is_formula", 0))
     for name, need in (("neighbour|S", 50000), ("neighbour|I", 50000), ("neighbour|D", 10000), ("n>=33", 50),
-                       ("decode-rejected-by-check-only", 100)):
+                       ("decode-rejected-by-check-only", 100), ("decode-rejects|empty strand", 30)):
         if c.get(name, 0) < need:
             out.append("%s observed %d < %d" % (name, c.get(name, 0), need))
     return out
